@@ -412,6 +412,11 @@ pub fn main(args: &[String]) -> i32 {
     let viol_path = arg(args, "--viol").unwrap_or("replay_viol.ndjson").to_string();
     let nworkers: usize = arg(args, "--workers").and_then(|s| s.parse().ok()).unwrap_or(8);
     let also_unopt = args.iter().any(|a| a == "--also-unopt");
+    // --facts <file>: also ask for the compile-time facts of every behaviour's pattern and log them as
+    // facts events (validated afterwards by FactsTrace.tla)
+    let facts_path = arg(args, "--facts").map(|s| s.to_string());
+    let want_facts = facts_path.is_some();
+    let facts_out = Mutex::new(facts_path.and_then(|p| std::fs::File::create(p).ok()));
     let stats = Mutex::new(Stats::default());
     let viol = Mutex::new(std::fs::File::create(&viol_path).ok());
     let ctx = Ctx { stats: &stats, viol: &viol };
@@ -425,6 +430,9 @@ pub fn main(args: &[String]) -> i32 {
                 Some(beh) => {
                     id += 1;
                     let mut j = job_of(&beh, id);
+                    if want_facts && beh["comp"].as_str().unwrap_or("ok") == "ok" {
+                        j["facts"] = json!(true);
+                    }
                     if also_unopt {
                         // the same source compiled with every compile-time optimisation switched off (C08)
                         j["pat2"] = beh["pat"].clone();
@@ -507,6 +515,18 @@ pub fn main(args: &[String]) -> i32 {
             }
         }
         compare(&ctx, beh, &reply);
+        if let Some(fa) = reply.get("facts") {
+            if fa.get("minlen").is_some() {
+                let opt = |v: &Value| if v.is_null() { json!({"some": false, "v": []}) } else { json!({"some": true, "v": v}) };
+                let ev = json!({"ev":"facts","pat":beh["pat"],"flags":beh["flags"],"xpath":beh["x"],
+                                "facts":{"prefix":opt(&fa["prefix"]),"initial":opt(&fa["initial"]),"minlen":fa["minlen"],
+                                         "hasbol":fa["hasbol"],"pre":crate::record::strip_sets(&fa["pre"]),
+                                         "ops":crate::record::strip_sets(&fa["ops"])}});
+                if let Some(f) = facts_out.lock().unwrap().as_mut() {
+                    let _ = writeln!(f, "{}", ev);
+                }
+            }
+        }
         if job.get("unopt2").is_some() {
             let mut b2 = beh.clone();
             b2["unopt"] = json!(true);
